@@ -94,6 +94,8 @@ _spy._harness_callable = True
 EXTRA_KINDS = {
     'P': lambda a: _spy,
     'O': lambda a: 'cp866',
+    'y': lambda a: {},          # a container the program owns, in a surplus argument position
+    'z': lambda a: [],
     'T': lambda a: (3, 'a'),
     'A': lambda a: '__class__',
     'G': lambda a: '{0.__class__.__mro__}',
